@@ -31,9 +31,11 @@ TABLE = [
     ('ref.row_range', '=SUM(B2:D2)', 'self._sum(self._only_numeric_list(self._flatten_list([AREA(0, 1, 1, 3, 1)])))', ''),
     ('ref.absolute_rectangle', '=SUM($B$2:$C$3)', 'self._sum(self._only_numeric_list(self._flatten_list([AREA(0, 1, 1, 2, 2)])))', ''),
     ('ref.whole_column_other_sheet', "=SUM('Other sheet'!B:B)",
-     'self._sum(self._only_numeric_list(self._flatten_list([AREA(1, 1, 0, 1, 1)])))', 'every stored row of that column'),
+     'self._sum(self._only_numeric_list(self._flatten_list([[[CELL(1, 1, 0)], [CELL(1, 1, 1)], *self._rows_below(1, 1, 1, 2)]])))',
+     'every stored row of that column, then the rows that values set by hand have added below them'),
     ('ref.whole_columns_row_major', "=SUM('Other sheet'!A:B)",
-     'self._sum(self._only_numeric_list(self._flatten_list([AREA(1, 0, 0, 1, 1)])))', 'A:B is row-major as well'),
+     'self._sum(self._only_numeric_list(self._flatten_list([[[CELL(1, 0, 0), CELL(1, 1, 0)], [CELL(1, 0, 1), CELL(1, 1, 1)], '
+     '*self._rows_below(1, 0, 1, 2)]])))', 'A:B is row-major as well, extended below in the same way'),
 ]
 
 
